@@ -23,6 +23,16 @@ func (r *checkRun) runBounded() int {
 		start := time.Now()
 		cmd := exec.Command(filepath.Join(verifDir, "tools", "overlay_test.sh"), r.repo, b.Package, filepath.Join(verifDir, "bounded", b.File), b.Test)
 		cmd.Env = append(os.Environ(), "VERIF_BOUND="+bound, fmt.Sprintf("VERIF_SEED=%d", r.seed), "VERIF_PROPERTY="+r.cfg.Property)
+		// deviation classes of recorded (not repaired) findings of this stand-in: the harness still runs those inputs and
+		// counts them; anything not listed in the committed findings file is a failure
+		name0 := "bounded:" + b.Name
+		var knownPats []string
+		for _, k := range loadKnown() {
+			if k.Property == r.cfg.Property && k.Status == "known" && k.Obligation == name0 && k.Input != "" {
+				knownPats = append(knownPats, strings.Split(k.Input, "|")...)
+			}
+		}
+		cmd.Env = append(cmd.Env, "VERIF_KNOWN="+strings.Join(knownPats, "|"))
 		if b.Tags != "" {
 			cmd.Env = append(cmd.Env, "VERIF_TAGS="+b.Tags)
 		}
@@ -63,6 +73,23 @@ func (r *checkRun) runBounded() int {
 		}
 		rec["failures"] = len(failures)
 		r.bounded = append(r.bounded, rec)
+		if hits, ok := rec["known_deviation_hits"].(map[string]any); ok {
+			for _, k := range loadKnown() {
+				if k.Property != r.cfg.Property || k.Status != "known" || k.Obligation != name0 {
+					continue
+				}
+				n := 0.0
+				for _, pat := range strings.Split(k.Input, "|") {
+					if v, ok := hits[strings.TrimSpace(pat)].(float64); ok {
+						n += v
+					}
+				}
+				if n > 0 {
+					fmt.Printf("KNOWN-FINDING: property=%s %s [%s] (%d inputs of this class in the run): %s\n", r.cfg.Property, name0, k.Input, int(n), k.What)
+					r.knownHits = append(r.knownHits, name0+" "+k.Input)
+				}
+			}
+		}
 		if len(failures) == 0 {
 			fmt.Printf("bounded %s: %v cases, bound %v, ok\n", b.Name, rec["cases"], rec["bound"])
 			continue
@@ -70,7 +97,7 @@ func (r *checkRun) runBounded() int {
 		name := "bounded:" + b.Name
 		known := false
 		for _, k := range loadKnown() {
-			if k.Property == r.cfg.Property && k.Status == "known" && k.Obligation == name {
+			if k.Property == r.cfg.Property && k.Status == "known" && k.Obligation == name && k.Input == "" {
 				known = true
 				fmt.Printf("KNOWN-FINDING: property=%s %s: %s\n", r.cfg.Property, name, k.What)
 				r.knownHits = append(r.knownHits, name)
